@@ -43,6 +43,9 @@ def insert_virtual(rng, case):
     import re
     out.append(('{' + body + '.[#V]}.' + rest, 'last'))          # also directly after a multiplier: '|3.[#V]'
     out.append(('{[#V].' + body + '.[#W].[#V]}.' + rest, 'several'))
+    # the zero bond written directly behind SEVERAL closing parentheses: the whole description hangs, zero-bonded, in a
+    # nested branch of virtual nodes, and one more follows the closings
+    out.append(('{[#W].([#V].(' + body + ')).[#V]}.' + rest, 'after-two-closings'))
     # after the first node: as a zero-bonded branch
     k = body.find(']')
     if k > 0:
@@ -175,7 +178,8 @@ def oracle(ctx, case, steps, ctor_err):
         return
     # ... wherever it stands: last (bonded backwards), first (bonded forwards only), first of a '.'-separated part
     for bad, where in ((base + '[#V]}.' + rest, 'last'), ('{[#V]' + base[1:] + '}.' + rest, 'first'),
-                       (base + '.[#V][#W]}.' + rest[:-1] + ',#W=C}', 'first-of-a-part')):
+                       (base + '.[#V][#W]}.' + rest[:-1] + ',#W=C}', 'first-of-a-part'),
+                       ('{[#V].' + base[1:] + '[#V]}.' + rest, 'same-name-as-an-earlier-virtual-node')):
         try:
             resolve(bad, **kw)
             ctx.fail(dict(suites.slim(case), s=bad, variant='bad'), f'fragment-less node ({where}) with an order-1 edge was resolved without error')
